@@ -144,7 +144,8 @@ theorem size_message (b : Bot) (n : Nat) (h : n ≠ b.n) :
     b.onMsg (.sizeChange n) =
       { b with tower := { b.tower with assigned := b.tower.assigned.filter (fun p => p.1 ≤ n),
                                         bellState := List.replicate n true } }.onSizeChange := by
-  simp [Bot.onMsg, h]
+  have h' : n ≠ b.tower.size := h
+  simp [Bot.onMsg, Tower.apply, h, h']
 
 /-- With the default start row the recomputed opening row is rounds on the new size. -/
 theorem default_opening (n : Nat) : startingRow n none = some (rounds n) := rfl
